@@ -61,6 +61,8 @@ def race(mc, p):
 
     def shutter():
         mc.call("shutdown", ex.shutdown, True, **dict(p["kw"]))
+        # a repeated shutdown() must not sweep again ("cancel() invoked exactly once")
+        mc.call("shutdown.again", ex.shutdown, True, **dict(p["kw"]))
 
     for k in range(p["nsub"]):
         mc.spawn(submitter(k), "sub%d" % k)
@@ -88,7 +90,8 @@ def _o(x):
         lab = "b%d" % e["i"]
         cancels = [c for c in log if c["kind"] == "probe.cancel" and c["f"] == lab and c["th"] == "shut"
                    and c["seq"] < s_ret]
-        x.require(len(cancels) <= 1, "cancelled-twice", n=len(cancels))
+        allc = [c for c in log if c["kind"] == "probe.cancel" and c["f"] == lab and c["th"] == "shut"]
+        x.require(len(allc) <= 1, "cancelled-twice", n=len(allc))
         if cancels:
             continue
         # never swept: acceptable only if the future was done at some moment of the sweep,
@@ -102,6 +105,7 @@ def _o(x):
 
 
 PLAN = {
-    "quick": [dict(harness="c10.race", bound=2)],
-    "thorough": [dict(harness="c10.race", bound=3)],
+    "quick": [dict(harness="c10.race", bound=3)],
+    "thorough": [dict(harness="c10.race", bound=4, select=lambda p: p["nsub"] == 1 and p["per"] == 1),
+                 dict(harness="c10.race", bound=3), dict(harness="c10.race", bound=2, order="desc")],
 }
